@@ -64,7 +64,7 @@ structure VerPart where
   op : VC
   g3 : Gap
   ver : VersionA
-  /-- gap between the version and `)` — both readers reject it when non-empty (finding F-C10-3) -/
+  /-- gap between the version and `)` -/
   g4 : Gap
   deriving Repr, DecidableEq
 
@@ -329,8 +329,10 @@ def laterGapsOk : List Item → Bool
   | [] => true
   | _ :: rest => rest.all fun i => !i.gap.isEmpty
 
+/-- (an empty list `[]` / `<>` is not Policy syntax but both readers handle it, and the lossy value
+    `architectures: Some(vec![])` prints it; it is part of the domain) -/
 def Bracket.ok (b : Bracket) : Bool :=
-  gapOk b.pre && gapOk b.post && !b.items.isEmpty && b.items.all Item.ok && laterGapsOk b.items
+  gapOk b.pre && gapOk b.post && b.items.all Item.ok && laterGapsOk b.items
 
 def RelA.ok (r : RelA) : Bool :=
   isIdent r.name
@@ -359,8 +361,9 @@ def FieldA.ok (f : FieldA) : Bool := f.segs.all Seg.ok
 def FieldA.WF (f : FieldA) : Prop := f.ok = true
 instance (f : FieldA) : Decidable f.WF := by unfold FieldA.WF; exact inferInstance
 
-/-! ### constructs on which the code as it exists departs from the property (trigger predicates
-    of the open findings; see Props/C10.lean) -/
+/-! ### constructs on which the code used to depart from the property (findings F-C10-2 … F-C10-7,
+    all fixed; the predicates are kept to name the regression statements `C10_fixed_*` of
+    Props/C10.lean and for the generator statistics) -/
 
 def EntryA.rels : EntryA → List RelA
   | .alts r rest => r :: rest.map AltA.rel
@@ -403,11 +406,5 @@ def RelA.innerGaps (r : RelA) : List Gap :=
 def RelA.hasInnerNewline (r : RelA) : Bool := r.innerGaps.any gapHasNl
 def FieldA.hasInnerNewline (f : FieldA) : Bool := f.rels.any RelA.hasInnerNewline
 
-
-/-- the relation lies outside the trigger regions of the findings that concern the lossy reader
-    (F-C10-3 … F-C10-7) -/
-def RelA.lossyOk (r : RelA) : Bool :=
-  !r.hasNegatedArch && !r.hasCloseGap && !r.hasMultiTermGroup && !r.hasProfileEdgeGap && !r.hasInnerNewline
-def FieldA.lossyOk (f : FieldA) : Bool := f.rels.all RelA.lossyOk
 
 end Deb822Verif.RelSpec
